@@ -30,8 +30,20 @@ PBad  == {<<"">>, <<".">>, <<"..">>, <<"", "">>, <<".", "a.html">>, <<"a.html", 
           <<"", "", "a.html">>, <<"e", "..", "..", "..", "b.html">>}
 PAll  == PRel \cup PAbs \cup PUp \cup PBad
 
-\* a family: files, kinds, paths as sequences (files in NameSeq order, kinds in statement order)
-Fam(f, e, k, p, m) == [files |-> f, entry |-> e, kinds |-> k, paths |-> SetToSeq(p), max |-> m]
+\* a family: files, kinds, paths as sequences (files in NameSeq order, kinds in statement order).
+\* The references of a family are numbered 1..n owner-major, then kind, then path; the record
+\* carries what the generator needs per reference number (tables are built once per family):
+\*   b = n + 1 and its powers pw (a reference list is a number in base b), own[d] / tgt[d] = owner
+\*   and Rooted target of reference d
+RECURSIVE Pow(_, _)
+Pow(b, n) == IF n = 0 THEN 1 ELSE b * Pow(b, n - 1)
+Fam(f, e, k, p, m) ==
+  LET ps == SetToSeq(p)
+      n == Len(f) * Len(k) * Len(ps)
+      own == [d \in 1..n |-> f[((d - 1) \div (Len(k) * Len(ps))) + 1]]
+  IN [files |-> f, entry |-> e, kinds |-> k, paths |-> ps, max |-> m, n |-> n, b |-> n + 1,
+      pw |-> [j \in 1..(m + 2) |-> Pow(n + 1, j - 1)], own |-> own,
+      tgt |-> [d \in 1..n |-> Rooted(Dir(own[d]), ps[((d - 1) % Len(ps)) + 1])]]
 K3 == <<"extends", "import", "render">>
 K4 == <<"extends", "import", "render", "renderd">>
 KI == <<"import", "render", "renderd">>
@@ -55,16 +67,12 @@ Fams ==
        Fam(All5, DA, <<"import", "render">>, PRel \cup PAbs \cup PUp, 2),
        Fam(<<A>>, B, K3, {}, 0), Fam(<<DA>>, A, K3, {}, 0) >>
 
-(* A reference list is coded as an integer: the references of a family are numbered 1..N
-   owner-major, then kind, then path (so the canonical order of a list is "group numbers do not
-   decrease", group = owner x kind); a list d1..dk is the number sum dj * (N+1)^(j-1).  Sets of
-   integers are what TLC builds fast; a graph is decoded only when needed.                     *)
-NRefs(fam) == Len(fam.files) * Len(fam.kinds) * Len(fam.paths)
-RECURSIVE Pow(_, _)
-Pow(b, n) == IF n = 0 THEN 1 ELSE b * Pow(b, n - 1)
-Digit(fam, c, j) == (c \div Pow(NRefs(fam) + 1, j - 1)) % (NRefs(fam) + 1)
+(* A reference list is coded as an integer: a list d1..dk of reference numbers is the number
+   sum dj * b^(j-1); its canonical order is "group numbers do not decrease" (group = owner x
+   kind).  Sets of integers are what TLC builds fast; a graph is decoded only when needed.      *)
+Digit(fam, c, j) == (c \div fam.pw[j]) % fam.b
 Group(fam, d) == (d - 1) \div Len(fam.paths)
-RefAt(fam, d) == [o |-> fam.files[((d - 1) \div (Len(fam.kinds) * Len(fam.paths))) + 1],
+RefAt(fam, d) == [o |-> fam.own[d],
                   k |-> fam.kinds[(((d - 1) \div Len(fam.paths)) % Len(fam.kinds)) + 1],
                   p |-> fam.paths[((d - 1) % Len(fam.paths)) + 1]]
 RECURSIVE NDigits(_, _, _)
@@ -74,15 +82,14 @@ RefsOfCode(fam, c) == [j \in 1..NDigits(fam, c, 0) |-> RefAt(fam, Digit(fam, c, 
 RECURSIVE Level(_, _)
 Level(fam, n) ==
   IF n = 0 THEN {0}
-  ELSE {x \in {c + d * Pow(NRefs(fam) + 1, n - 1) : c \in Level(fam, n - 1), d \in 1..NRefs(fam)} :
+  ELSE {x \in {c + d * fam.pw[n] : c \in Level(fam, n - 1), d \in 1..fam.n} :
             n = 1 \/ Group(fam, Digit(fam, x, n)) >= Group(fam, Digit(fam, x, n - 1))}
 \* every reference belongs to a file reachable from the entry file (through any reference)
 RECURSIVE LiveSet(_, _, _, _)
-LiveSet(refs, tg, S, n) == IF n = 0 THEN S ELSE LiveSet(refs, tg, S \cup {tg[j] : j \in {i \in 1..Len(refs) : refs[i].o \in S}}, n - 1)
-LiveCode(fam, c) == LET refs == RefsOfCode(fam, c)
-                        tg == [j \in 1..Len(refs) |-> Rooted(Dir(refs[j].o), refs[j].p)]
-                        S == LiveSet(refs, tg, {fam.entry}, Len(refs))
-                    IN \A j \in 1..Len(refs) : refs[j].o \in S
+LiveSet(fam, ds, S, n) == IF n = 0 THEN S ELSE LiveSet(fam, ds, S \cup {fam.tgt[ds[j]] : j \in {i \in 1..Len(ds) : fam.own[ds[i]] \in S}}, n - 1)
+LiveCode(fam, c) == LET ds == [j \in 1..NDigits(fam, c, 0) |-> Digit(fam, c, j)]
+                        S == LiveSet(fam, ds, {fam.entry}, Len(ds))
+                    IN \A j \in 1..Len(ds) : fam.own[ds[j]] \in S
 \* (no UNION over big sets: TLC's UNION is quadratic; \cup sorts)
 RECURSIVE UpTo(_, _)
 UpTo(fam, n) == IF n = 0 THEN Level(fam, 0) ELSE UpTo(fam, n - 1) \cup Level(fam, n)
